@@ -27,14 +27,25 @@ for f in $demo; do mv /tmp/demo-aside-$name/$(echo $f | tr / _) $f; done; rmdir 
 [ -z "$t" ] && echo "repository tests pass" || { echo "REPOSITORY TESTS AFFECTED:"; echo "$t"; }
 for f in $demo; do cp $f "$out/"; done
 cp OUT/notes.md "$out/notes.md" 2>/dev/null
-cd /repo && [ -z "$(git status --porcelain)" ] || { echo "/repo not clean"; exit 2; }
-git apply "$out/patch.diff" || { echo "patch does not apply to /repo"; exit 2; }
+# The checks run against the scratch worktree itself (REPO=<worktree>, own build and output
+# directories): /repo is not touched, so sweeps and other checks can run meanwhile. With
+# SEED_EVAL_INPLACE=1 the change is applied to /repo instead (git apply / git checkout -- .), the
+# way an outside evaluation does it.
+[ "$(git rev-parse HEAD)" = "$(git -C /repo rev-parse HEAD)" ] || echo "NOTE: worktree is at $(git rev-parse --short HEAD), /repo at $(git -C /repo rev-parse --short HEAD)"
 res=""
+if [ -n "${SEED_EVAL_INPLACE:-}" ]; then
+  cd /repo && [ -z "$(git status --porcelain)" ] || { echo "/repo not clean"; exit 2; }
+  git apply "$out/patch.diff" || { echo "patch does not apply to /repo"; exit 2; }
+  runcheck() { (cd /verif && ./check "$@" 2>&1); }
+else
+  sb=/tmp/seed-build-$name; so=/tmp/seed-out-$name
+  runcheck() { (cd /verif && REPO="$wt" VERIF_BUILD=$sb VERIF_OUT=$so ./check "$@" 2>&1); }
+fi
 for p in $(echo $props | tr , ' '); do
-  o=$(cd /verif && ./check $p $tier 2>&1); rc=$?
+  o=$(runcheck $p $tier); rc=$?
   v=$(echo "$o" | grep -E "^VIOLATION" | head -1); msg=$(echo "$o" | grep -B1 "^VIOLATION" | head -1 | cut -c1-300)
   echo "== check $p $tier: rc=$rc $v"; echo "   $msg"
   res="$res $p:rc=$rc"
 done
-git checkout -- .
+if [ -n "${SEED_EVAL_INPLACE:-}" ]; then git checkout -- .; else rm -rf "$sb" "$so"; fi
 echo "RESULT $name:$res"
